@@ -57,16 +57,31 @@ def main(argv):
 
 def _run(ctx: Ctx, mod, replay):
 	pid = ctx.pid
-	# ---- T: regenerate Gen from the .pyx sources -----------------------------------------------
+	# ---- T: regenerate Gen from the .pyx sources and from the translated Python functions -----------------------------------------------
 	t = time.time()
 	gen_report = core.regenerate_gen()
 	# ---- build -------------------------------------------------------------------------------
 	ok, out, failed = core.lake_build()
 	build_s = time.time() - t
 	tie_modules = [m for m, _ in getattr(mod, 'TIE', [])]
+	imports = core.lean_imports()
+	tie_closure = core.import_closure(tie_modules, imports)          # the Tie modules of this property, their Gen modules and helper lemmas
+	gen_dependent = {m for m in imports if any(x.startswith('GambitV.Gen.') for x in core.import_closure([m], imports))}
 	tie_failed = []
 	if not ok:
-		mine = [m for m in failed if not (m.startswith('GambitV.Tie') or m.startswith('GambitV.Gen'))]
+		# a generated module that does not type-check (the source changed into something the translation does not type): emit it as a
+		# stub, record the tie as broken, and build again so that the driver and the unaffected modules are available
+		gen_failed = [m for m in failed if m.startswith('GambitV.Gen.Py')]
+		if gen_failed:
+			from py2lean import FUNCS
+			stub = {d['name'] for d in FUNCS if 'GambitV.Gen.' + d['module'] in gen_failed}
+			first_error = _first_error(out)
+			gen_report = core.regenerate_gen(stub)
+			ok, out, failed2 = core.lake_build()
+			failed = sorted(set(failed2) | set(gen_failed))
+			ctx.notes.append(f'generated module(s) {gen_failed} did not type-check: {first_error}')
+	if not ok or failed:
+		mine = [m for m in failed if not (m in gen_dependent and m.startswith('GambitV.'))]
 		if mine:
 			log(out[-3000:])
 			raise BrokenCheck(f'lake build failed outside Gen/Tie: {mine}')
@@ -74,16 +89,17 @@ def _run(ctx: Ctx, mod, replay):
 		ok2, out2, failed2 = core.lake_build(('driver',))
 		if not ok2 and not core.DRIVER.exists():
 			raise BrokenCheck('driver cannot be built')
-		# only relevant for this property if it depends on the failing modules
-		tie_failed = [m for m in failed if m in tie_modules or
-		              any(m.startswith('GambitV.Gen') for _ in [0]) and tie_modules]
+		# only relevant for this property if its Tie modules depend on the failing modules
+		tie_failed = [m for m in failed if m in tie_closure]
 		if tie_failed:
 			ctx.tie_broken = tie_failed
 			ctx.notes.append('lake build failed in: ' + ', '.join(failed))
 			ctx.notes.append(_first_error(out))
-	untranslatable = [u for u in gen_report.get('untranslatable', []) if tie_modules]
-	if untranslatable and not ctx.tie_broken:
-		ctx.tie_broken = ['translator: ' + u for u in untranslatable]
+	untranslatable = [u for m, us in gen_report.get('untranslatable_by_module', {}).items() if m in tie_closure or (m == '*' and tie_modules) for u in us]
+	if untranslatable:
+		ctx.notes += ['translator: ' + u for u in untranslatable]
+		if not ctx.tie_broken:
+			ctx.tie_broken = ['translator: ' + u for u in untranslatable]
 
 	# ---- audit -------------------------------------------------------------------------------
 	forb = core.grep_forbidden()
@@ -91,7 +107,7 @@ def _run(ctx: Ctx, mod, replay):
 	if ctx.tie_broken:
 		# the Props module may import a broken Tie module; audit what still exists
 		pairs = [p for p in pairs if (LEAN / '.lake/build/lib/lean' / (p[0].replace('.', '/') + '.olean')).exists()
-		         and p[0] not in ctx.tie_broken]
+		         and not (core.import_closure([p[0]], imports) & set(failed))]
 	audit = core.audit_axioms(pairs)
 	all_pairs = [mod.PROPS] + list(getattr(mod, 'TIE', []))
 	obligations = sum(len(core.theorem_names(LEAN / (m.replace('.', '/') + '.lean'), ns)) for m, ns in all_pairs
@@ -170,9 +186,10 @@ def _run(ctx: Ctx, mod, replay):
 			'detail': ctx.notes,
 			'searched': {'evaluations': ctx.evaluations, 'driver_requests': ctx.requests,
 			             'tier': ctx.tier, 'seed': ctx.seed},
-			'explanation': 'the generated definitions (translated from the current .pyx sources) no longer '
-			               'satisfy the tie theorem(s) named above; no concrete failing input was found by the '
-			               'search over the generated definitions, the model and the implementation',
+			'explanation': 'the definitions generated from the current sources (harness/pyx2lean.py for _cython/*.pyx, harness/py2lean.py for '
+			               'the translated Python functions) no longer satisfy the tie theorem(s) named above, or a source construct is '
+			               'outside the translated subset (see detail); no concrete failing input was found by the search over the '
+			               'generated definitions, the model and the implementation',
 		}
 		p = core.write_replay(pid, payload)
 		replay_paths.append(str(p))
